@@ -206,6 +206,8 @@ pub fn suite<S: HasR, const N: usize>(mon: &mut Monitor, api: &SteerApi<S, N>) {
             let mut rng = Rng::new(mon.op_seed(ty, "rot"));
             use core::f64::consts::PI;
             for it in 0..iters {
+                // magnitudes stay in a window (2^+-8 for f32, 2^+-60 for f64) in which no intermediate of the documented formulas
+                // (dot / sqrt(|a|^2 |b|^2), the normalised cross product) leaves the normal range; see DESIGN.md, C12 scope
                 let (av, _) = vec_kind_r::<S>(&mut rng, N, [0u64, 1, 7][(it % 3) as usize], 0.2);
                 let a: [S; N] = arr(&av);
                 let (bv, lb) = partner::<S>(&mut rng, &a, 1 + (it / 3) % 5);
@@ -225,6 +227,7 @@ pub fn suite<S: HasR, const N: usize>(mon: &mut Monitor, api: &SteerApi<S, N>) {
                 if c.need_sample() { c.sample(format!("{}.rotate_towards: {} -> {}", ty, inp(), show(&g))); }
                 let la = vlen(&ra).to_f64();
                 let lg = vlen(&rg).to_f64();
+
                 c.ratio_t("length preserved", (lg - la).abs() / (16.0 * eps * la));
                 if !((lg - la).abs() <= 16.0 * eps * la) {
                     fail(&mut c, "steer", &["rotate_towards", "length"], &inp, format!("{:e}", lg), format!("{:e}", la), "rotation must preserve the length".into());
@@ -254,13 +257,23 @@ pub fn suite<S: HasR, const N: usize>(mon: &mut Monitor, api: &SteerApi<S, N>) {
         if let Some(mut c) = mon.begin(ty, "slerp") {
             let mut rng = Rng::new(mon.op_seed(ty, "slerp"));
             for it in 0..iters {
-                let (av, _) = vec_kind_r::<S>(&mut rng, N, [0u64, 1, 7][(it % 3) as usize], 0.2);
+                // every 4th pair uses (almost) the whole exponent range for which |a|^2 and |b|^2 are representable: the documented
+                // formula divides the dot product by |a| * |b|, which must not be replaced by sqrt(|a|^2 * |b|^2)
+                let wide = it % 4 == 3;
+                let (av, _) = vec_kind_r::<S>(&mut rng, N, if wide { [0u64, 3, 7, 3][((it / 4) % 4) as usize] } else { [0u64, 1, 7][(it % 3) as usize] }, if wide { 0.95 } else { 0.2 });
                 let a: [S; N] = arr(&av);
                 let (bv, lb) = partner::<S>(&mut rng, &a, 1 + (it / 3) % 5);
                 let b: [S; N] = arr(&bv);
-                let (ra, rb) = (rs(&a), rs(&b));
-                let (la, lbn) = (vlen(&ra).to_f64(), vlen(&rb).to_f64());
-                if la == 0.0 || lbn == 0.0 { continue; }
+                // references are computed on copies scaled by exact powers of two so that the double-double products stay in
+                // range for operands near the ends of the exponent range; lengths are scaled back
+                let pow2 = |v: &[S; N]| -> f64 { let m = v.iter().map(|x| x.f64().abs()).fold(0.0, f64::max); if m > 0.0 && m.is_finite() { m.log2().floor().exp2() } else { 1.0 } };
+                let (pa, pb) = (pow2(&a), pow2(&b));
+                let asc: [S; N] = core::array::from_fn(|k| S::of(a[k].f64() / pa));
+                let bsc: [S; N] = core::array::from_fn(|k| S::of(b[k].f64() / pb));
+                if (0..N).any(|k| asc[k].f64() * pa != a[k].f64() || bsc[k].f64() * pb != b[k].f64()) { continue; } // (subnormal lanes: scaling not exact)
+                let (ra, rb) = (rs(&asc), rs(&bsc));
+                let (la, lbn) = (vlen(&ra).to_f64() * pa, vlen(&rb).to_f64() * pb);
+                if la == 0.0 || lbn == 0.0 || !la.is_finite() || !lbn.is_finite() { continue; }
                 let theta = angle_between(&ra, &rb);
                 let s = S::of(match it % 5 { 0 => 0.0, 1 => 1.0, 2 => 0.5, 3 => rng.range(-0.2, 1.2), _ => rng.unit() });
                 let g = sl(a, b, s);
@@ -411,11 +424,14 @@ macro_rules! quat_suite {
                 let bs: [f64; 4] = if dot < 0.0 { [-bf[0], -bf[1], -bf[2], -bf[3]] } else { bf };
                 // total angle on the 3-sphere between a and the sign-corrected b (half the rotation angle)
                 let omega = { let d: f64 = (0..4).map(|k| (af[k] - bs[k]).powi(2)).sum::<f64>().sqrt(); let s: f64 = (0..4).map(|k| (af[k] + bs[k]).powi(2)).sum::<f64>().sqrt(); 2.0 * d.atan2(s) };
-                let s = match it % 6 { 0 => 0.0, 1 => 1.0, 2 => 0.5, 3 => rng.range(-0.2, 1.2), _ => rng.unit() } as $S;
+                // s in [0, 1], slightly outside, and far extrapolation (several turns along the great circle: slerp stays on
+                // the unit sphere and keeps angle = s * total for every s)
+                let far = it % 7 == 4;
+                let s = if far { rng.range(-60.0, 60.0) } else { match it % 6 { 0 => 0.0, 1 => 1.0, 2 => 0.5, 3 => rng.range(-0.2, 1.2), _ => rng.unit() } } as $S;
                 let sf = s as f64;
                 let inp = || format!("a={:?} ({}) b={:?} s={:?} omega={:e}", a, la, b, s, omega);
-                let tol = ang_tol::<$S>(omega) * 2.0;
-                c.event(vcommon::rng::hash_str(la) ^ (it % 24), true);
+                let tol = ang_tol::<$S>(omega) * 2.0 * sf.abs().max(1.0);
+                c.event(vcommon::rng::hash_str(la) ^ (it % 24) ^ ((far as u64) << 7), true);
                 if c.need_sample() { c.sample(format!("{}: slerp {} -> {:?}", $tag, inp(), a.slerp(b, s))); }
                 // exact references along the shorter arc; when the operands are orthogonal on the 3-sphere
                 // (|dot| within rounding of 0) both arcs are equally short and either is accepted
@@ -430,6 +446,7 @@ macro_rules! quat_suite {
                 let ambiguous = dot.abs() <= 8.0 * eps;
                 let alt = { let nb = [-bs[0], -bs[1], -bs[2], -bs[3]]; refs(&nb, core::f64::consts::PI - omega) };
                 for (nm, g, exact, exact_alt) in [("Quat::lerp", a.lerp(b, s), nl, alt.0), ("Quat::slerp", a.slerp(b, s), sl, alt.1)] {
+                    if far && nm == "Quat::lerp" { continue; } // a far-extrapolated chord can pass through the origin
                     let gf = [g.x as f64, g.y as f64, g.z as f64, g.w as f64];
                     let gn = gf.iter().map(|x| x * x).sum::<f64>().sqrt();
                     c.ratio_t("unit", (gn - 1.0).abs() / (16.0 * eps + if nm == "Quat::slerp" { tol } else { 0.0 }));
